@@ -22,8 +22,6 @@ locked).
 """
 import json
 import os
-import re
-import time
 
 FAMILY = 'Wallet'
 DRIVER = 'wallet'
